@@ -97,15 +97,29 @@ Proof.
   destruct (Nat.eqb_spec d' d); [subst; reflexivity|exact IH].
 Qed.
 
-Lemma amount_of_allowed_fees p fee d :
-  NoDup (p_allowed p) -> amount_of (allowed_fees p fee) d = allowed_amount p fee d.
+Lemma amount_of_allowed_fees E p fee d :
+  e_allowed_once E = true -> amount_of (allowed_fees E p fee) d = allowed_amount p fee d.
+Proof.
+  intro Honce. unfold allowed_fees, allowed_amount.
+  destruct (p_allowed p) as [|x al] eqn:Hal; [reflexivity|].
+  change (is_nil (x :: al)) with false. rewrite orb_false_l.
+  transitivity (amount_of fee d * allowed_factor E (x :: al) d).
+  - exact (amount_of_scaled fee (allowed_factor E (x :: al)) d).
+  - unfold allowed_factor. rewrite Honce. destruct (mem d (x :: al)); lia.
+Qed.
+
+(** with duplicate-free AllowedDenoms both variants coincide *)
+Lemma amount_of_allowed_fees_nodup E p fee d :
+  NoDup (p_allowed p) -> amount_of (allowed_fees E p fee) d = allowed_amount p fee d.
 Proof.
   intro Hnd. unfold allowed_fees, allowed_amount.
   destruct (p_allowed p) as [|x al] eqn:Hal; [reflexivity|].
   change (is_nil (x :: al)) with false. rewrite orb_false_l.
-  transitivity (amount_of fee d * Z.of_nat (count d (x :: al))).
-  - exact (amount_of_scaled fee (fun k => Z.of_nat (count k (x :: al))) d).
-  - rewrite (count_mem_nodup d (x :: al) Hnd). destruct (mem d (x :: al)); lia.
+  transitivity (amount_of fee d * allowed_factor E (x :: al) d).
+  - exact (amount_of_scaled fee (allowed_factor E (x :: al)) d).
+  - unfold allowed_factor. destruct (e_allowed_once E).
+    + destruct (mem d (x :: al)); lia.
+    + rewrite (count_mem_nodup d (x :: al) Hnd). destruct (mem d (x :: al)); lia.
 Qed.
 
 Lemma amount_of_nonneg fee d : Forall (fun c => 0 <= snd c) fee -> 0 <= amount_of fee d.
@@ -146,15 +160,15 @@ Proof.
       unfold ind. destruct (Nat.eqb a w), (Nat.eqb a (e_collector E)); lia.
 Qed.
 
-Definition params_ok (p : params) : Prop := 0 <= p_share p <= PREC /\ NoDup (p_allowed p).
+Definition params_ok (p : params) : Prop := 0 <= p_share p <= PREC.
 Definition fee_ok (fee : coins) : Prop := Forall (fun c => 0 <= snd c) fee.
-Definition env_ok (E : env) : Prop := In (e_collector E) (e_blocked E).
+Definition env_ok (E : env) : Prop := In (e_collector E) (e_blocked E) /\ e_allowed_once E = true.
 
 (** per-recipient amount the ante part pays in denom [d] *)
-Definition q_model (p : params) (t : txin) (n : nat) (d : denom) : Z :=
+Definition q_model (E : env) (p : params) (t : txin) (n : nat) (d : denom) : Z :=
   match n with
   | O => 0
-  | _ => per_recipient (p_share p) (amount_of (allowed_fees p (t_fee t)) d) n
+  | _ => per_recipient (p_share p) (amount_of (allowed_fees E p (t_fee t)) d) n
   end.
 
 Lemma ante_effect E p R b t b' :
@@ -162,7 +176,7 @@ Lemma ante_effect E p R b t b' :
   (forall w, In w (eff_recipients p (reg_lookup R) (t_msgs t)) -> mem w (e_blocked E) = false) /\
   forall a d, b' a d - b a d =
               pay_formula E t (eff_recipients p (reg_lookup R) (t_msgs t))
-                          (q_model p t (length (eff_recipients p (reg_lookup R) (t_msgs t)))) a d.
+                          (q_model E p t (length (eff_recipients p (reg_lookup R) (t_msgs t)))) a d.
 Proof.
   unfold ante. intro H. remember (eff_recipients p (reg_lookup R) (t_msgs t)) as rc eqn:Hrc0. clear Hrc0.
   assert (H1 : exists b1, (if is_nil (t_fee t) then Some b else send b (t_signer t) (e_collector E) (t_fee t)) = Some b1 /\
@@ -179,22 +193,22 @@ Proof.
     destruct (Nat.eqb a (t_signer t)), (Nat.eqb a (e_collector E)); lia.
   - destruct (pay_all_effect _ _ _ _ _ H) as [Hbl Hf]. split; [exact Hbl|].
     intros a d. rewrite Hf, Hb1, amount_of_fee_pay_logic. unfold pay_formula.
-    change (q_model p t (length (w :: rc')) d)
-      with (per_recipient (p_share p) (amount_of (allowed_fees p (t_fee t)) d) (length (w :: rc'))).
+    change (q_model E p t (length (w :: rc')) d)
+      with (per_recipient (p_share p) (amount_of (allowed_fees E p (t_fee t)) d) (length (w :: rc'))).
     unfold ind. destruct (Nat.eqb a (t_signer t)), (Nat.eqb a (e_collector E)); lia.
 Qed.
 
 (* ------------------------------------------------------------------ payout part of the property *)
 
-Lemma q_model_props p t n d :
-  params_ok p -> fee_ok (t_fee t) ->
-  0 <= q_model p t n d /\
-  PREC * (Z.of_nat n * q_model p t n d) <= p_share p * allowed_amount p (t_fee t) d + Z.of_nat n * HALF /\
-  (allowed_amount p (t_fee t) d = 0 -> q_model p t n d = 0).
+Lemma q_model_props E p t n d :
+  e_allowed_once E = true -> params_ok p -> fee_ok (t_fee t) ->
+  0 <= q_model E p t n d /\
+  PREC * (Z.of_nat n * q_model E p t n d) <= p_share p * allowed_amount p (t_fee t) d + Z.of_nat n * HALF /\
+  (allowed_amount p (t_fee t) d = 0 -> q_model E p t n d = 0).
 Proof.
-  intros [Hs Hnd] Hf. unfold q_model. destruct n as [|n'].
+  intros Honce Hs Hf. unfold q_model. destruct n as [|n'].
   - pose proof (allowed_amount_nonneg p (t_fee t) d Hf). repeat split; try lia; try nia.
-  - rewrite (amount_of_allowed_fees p (t_fee t) d Hnd).
+  - rewrite (amount_of_allowed_fees E p (t_fee t) d Honce).
     pose proof (allowed_amount_nonneg p (t_fee t) d Hf) as Ha.
     destruct (per_recipient_bounds (p_share p) (allowed_amount p (t_fee t) d) (S n')) as (B0 & B1 & _); try lia.
     repeat split; auto. intros ->. apply per_recipient_zero.
@@ -205,14 +219,14 @@ Lemma ante_satisfies_P_pay E p R b t b' :
   ante E p R b t = Some b' ->
   P_pay E p (reg_lookup R) t (fun a d => b' a d - b a d).
 Proof.
-  intros HE Hp Hf H. destruct (ante_effect _ _ _ _ _ _ H) as [Hbl Hform].
+  intros [HE Honce] Hp Hf H. destruct (ante_effect _ _ _ _ _ _ H) as [Hbl Hform].
   unfold P_pay. cbv zeta. split.
   - intro Hin. specialize (Hbl _ Hin). apply mem_false_notin in Hbl. apply Hbl. exact HE.
-  - exists (q_model p t (length (eff_recipients p (reg_lookup R) (t_msgs t)))).
+  - exists (q_model E p t (length (eff_recipients p (reg_lookup R) (t_msgs t)))).
     split; [|split; [|split]].
     + intro d. apply q_model_props; assumption.
     + exact Hform.
-    + intro d. destruct (q_model_props p t (length (eff_recipients p (reg_lookup R) (t_msgs t))) d Hp Hf) as (_ & B & _).
+    + intro d. destruct (q_model_props E p t (length (eff_recipients p (reg_lookup R) (t_msgs t))) d Honce Hp Hf) as (_ & B & _).
       pose proof PREC_HALF. pose proof HALF_pos. nia.
     + intro d. apply q_model_props; assumption.
 Qed.
@@ -369,7 +383,7 @@ Lemma equal_split E p R b t b' :
       b' a d - b a d = Z.of_nat (count a (eff_recipients p (reg_lookup R) (t_msgs t))) * q d.
 Proof.
   intro H. destruct (ante_effect _ _ _ _ _ _ H) as [_ Hf].
-  exists (q_model p t (length (eff_recipients p (reg_lookup R) (t_msgs t)))).
+  exists (q_model E p t (length (eff_recipients p (reg_lookup R) (t_msgs t)))).
   intros a d H1 H2. rewrite Hf. unfold pay_formula.
   destruct (Nat.eqb_spec a (t_signer t)); [contradiction|].
   destruct (Nat.eqb_spec a (e_collector E)); [contradiction|]. lia.
@@ -439,7 +453,7 @@ Lemma ante_conserves E p R b t b' U d :
 Proof.
   intros H Hnd Hs Hc Hinc. destruct (ante_effect _ _ _ _ _ _ H) as [_ Hf].
   set (rc := eff_recipients p (reg_lookup R) (t_msgs t)) in *.
-  set (q := q_model p t (length rc) d). set (F := amount_of (t_fee t) d).
+  set (q := q_model E p t (length rc) d). set (F := amount_of (t_fee t) d).
   rewrite (sumZ_ext _ (fun a => q * Z.of_nat (count a rc) + ((- F) * ind (Nat.eqb a (t_signer t))
                                  + (F - Z.of_nat (length rc) * q) * ind (Nat.eqb a (e_collector E))))).
   - rewrite sumZ_plus, sumZ_plus, !sumZ_scale, sumZ_count, !sumZ_indicator by assumption.
@@ -454,46 +468,51 @@ Lemma collector_delta E p R b t b' d :
   ante E p R b t = Some b' ->
   let rc := eff_recipients p (reg_lookup R) (t_msgs t) in
   b' (e_collector E) d - b (e_collector E) d
-  = amount_of (t_fee t) d - Z.of_nat (length rc) * q_model p t (length rc) d
-    + Z.of_nat (count (e_collector E) rc) * q_model p t (length rc) d.
+  = amount_of (t_fee t) d - Z.of_nat (length rc) * q_model E p t (length rc) d
+    + Z.of_nat (count (e_collector E) rc) * q_model E p t (length rc) d.
 Proof.
   intros Hne H. destruct (ante_effect _ _ _ _ _ _ H) as [_ Hf]. cbv zeta. rewrite Hf. unfold pay_formula.
   rewrite Nat.eqb_refl. destruct (Nat.eqb_spec (e_collector E) (t_signer t)); [congruence|]. lia.
 Qed.
 
 (** tight form: with DeveloperShares ≤ 1 the total paid in a denom is at most fee + n/2 *)
-Lemma total_payout_tight p t n d :
-  params_ok p -> fee_ok (t_fee t) ->
-  2 * PREC * (Z.of_nat n * q_model p t n d) <= 2 * p_share p * allowed_amount p (t_fee t) d + Z.of_nat n * PREC /\
-  2 * (Z.of_nat n * q_model p t n d) <= 2 * allowed_amount p (t_fee t) d + Z.of_nat n.
+Lemma total_payout_tight E p t n d :
+  e_allowed_once E = true -> params_ok p -> fee_ok (t_fee t) ->
+  2 * PREC * (Z.of_nat n * q_model E p t n d) <= 2 * p_share p * allowed_amount p (t_fee t) d + Z.of_nat n * PREC /\
+  2 * (Z.of_nat n * q_model E p t n d) <= 2 * allowed_amount p (t_fee t) d + Z.of_nat n.
 Proof.
-  intros Hp Hf. destruct (q_model_props p t n d Hp Hf) as (B0 & B1 & _).
-  pose proof PREC_HALF. pose proof HALF_pos. destruct Hp as [Hs _].
+  intros Honce Hp Hf. destruct (q_model_props E p t n d Honce Hp Hf) as (B0 & B1 & _).
+  pose proof PREC_HALF. pose proof HALF_pos. pose proof Hp as Hs.
   pose proof (allowed_amount_nonneg p (t_fee t) d Hf). split; nia.
 Qed.
 
-(* ------------------------------------------------------------------ what goes wrong without NoDup *)
+(* ------------------------------------------------------------------ the variant before the fix *)
 
-(** Params.Validate accepts an AllowedDenoms list that names a denom twice; getAllowedFees then
-    counts that fee coin twice and the payout exceeds DeveloperShares × fee by far more than the
-    rounding allowance (share 1, fee 100, one recipient: 200 is paid). *)
+(** Params.Validate accepts an AllowedDenoms list that names a denom twice.  Before the fix:
+    commit getAllowedFees counted that fee coin once per entry and the payout exceeded
+    DeveloperShares × fee by far more than the rounding allowance (share 1, fee 100, one recipient:
+    200 paid).  With the current code (first match only) the same input pays 100. *)
+Definition env_before_fix : env := {| e_collector := 0%nat; e_gov := 1%nat; e_blocked := [0%nat; 2%nat]; e_allowed_once := false |}.
+Definition env_current : env := {| e_collector := 0%nat; e_gov := 1%nat; e_blocked := [0%nat; 2%nat]; e_allowed_once := true |}.
 Definition dup_params : params := {| p_enabled := true; p_share := PREC; p_allowed := [0%nat; 0%nat] |}.
 Definition dup_tx : txin := {| t_signer := 3%nat; t_fee := [(0%nat, 100)]; t_msgs := [MExec 8%nat true None] |}.
-Definition dup_reg : registry := [(8%nat, {| fs_deployer := 3%nat; fs_withdrawer := 6%nat |})].
 
-Lemma duplicate_allowed_denoms_refuted :
-  0 <= p_share dup_params <= PREC /\
-  q_model dup_params dup_tx 1 0%nat = 200 /\
-  ~ (PREC * (1 * q_model dup_params dup_tx 1 0%nat)
-     <= p_share dup_params * allowed_amount dup_params (t_fee dup_tx) 0%nat + 1 * PREC).
+Lemma duplicate_allowed_denoms_refuted_before_fix :
+  params_ok dup_params /\ fee_ok (t_fee dup_tx) /\
+  q_model env_before_fix dup_params dup_tx 1 0%nat = 200 /\
+  ~ (PREC * (1 * q_model env_before_fix dup_params dup_tx 1 0%nat)
+     <= p_share dup_params * allowed_amount dup_params (t_fee dup_tx) 0%nat + 1 * PREC) /\
+  q_model env_current dup_params dup_tx 1 0%nat = 100.
 Proof.
-  split; [unfold dup_params, PREC; simpl; lia|]. split; [vm_compute; reflexivity|].
+  split; [unfold params_ok, dup_params, PREC; simpl; lia|].
+  split; [unfold fee_ok; simpl; repeat constructor; simpl; lia|].
+  split; [vm_compute; reflexivity|]. split; [|vm_compute; reflexivity].
   vm_compute. intro H. apply H. reflexivity.
 Qed.
 
 (* ------------------------------------------------------------------ non-vacuity *)
 
-Definition ex_env : env := {| e_collector := 0%nat; e_gov := 1%nat; e_blocked := [0%nat; 2%nat] |}.
+Definition ex_env : env := env_current.
 Definition ex_wasm : wasm :=
   [(8%nat, {| ci_creator := 3%nat; ci_admin := None; ci_owner := None |});
    (9%nat, {| ci_creator := 3%nat; ci_admin := Some 4%nat; ci_owner := None |});
@@ -515,7 +534,7 @@ Example payout_nonvacuous :
   delta ex_state (fst (step_tx ex_env ex_state ex_tx)) 0%nat 2%nat = -1.
 Proof.
   split; [unfold env_ok; simpl; auto|].
-  split; [split; [simpl; unfold PREC; lia|simpl; constructor]|].
+  split; [unfold params_ok; simpl; unfold PREC; lia|].
   split; [unfold fee_ok; simpl; repeat constructor; simpl; lia|]. vm_compute. repeat split; reflexivity.
 Qed.
 
